@@ -318,7 +318,13 @@ impl Prop for C19 {
                                             xmlcheck::sort_siblings(&mut tree, "*");
                                         }
                                         if let Some(d) = xmlcheck::tree_diff(&exp, &tree, "") {
-                                            viol(format!("{fam}|xml-values-differ"), "the XML document does not carry the library's values", "the documented JSON -> XML mapping of the values".into(), d);
+                                            if xmlcheck::has_key_that_is_no_name(&expected) {
+                                                // the same defect as the not-well-formed documents: a server-supplied key that is
+                                                // no XML Name was written as an element name; here the pieces happen to balance
+                                                viol(format!("xml{}|not-well-formed/element-name", if scn.tame { "-tame" } else { "" }), "a map key that is no XML Name became an element name: the document is well-formed by accident and has other elements", "the documented JSON -> XML mapping of the values".into(), d);
+                                            } else {
+                                                viol(format!("{fam}|xml-values-differ"), "the XML document does not carry the library's values", "the documented JSON -> XML mapping of the values".into(), d);
+                                            }
                                         }
                                     }
                                 }
@@ -370,8 +376,8 @@ impl Prop for C19 {
         out.nontrivial = true;
         out.distinct_key = crate::rng::mix(&[out.log_hash, crate::rng::hash_str(&scn.args.join(" "))]);
         if detail {
-            out.sample = Some(json!({"argv": scn.args, "exit": code, "stdout": stdout.chars().take(300).collect::<String>(), "stderr": stderr.chars().take(200).collect::<String>(),
-                "library_result": super::describe_result(&reference.result, &reference.crash).chars().take(200).collect::<String>()}));
+            out.sample = Some(json!({"argv": scn.args, "exit": code, "stdout": stdout.chars().take(if std::env::var_os("GDSIM_FULL_OUTPUT").is_some() { 100_000 } else { 300 }).collect::<String>(), "stderr": stderr.chars().take(200).collect::<String>(),
+                "library_result": super::describe_result(&reference.result, &reference.crash).chars().take(if std::env::var_os("GDSIM_FULL_OUTPUT").is_some() { 100_000 } else { 200 }).collect::<String>()}));
             out.schedule = reference.world.render_history(40);
         }
         let _ = std::io::stdout().flush();
